@@ -14,105 +14,84 @@ LEVEL = "other"
 
 
 def check_pair(cx, chk):
+    """Every range_until / slice_until of generated code measures from the rule's entry state to the state the rule body ended
+    in, and its value is what the rule returns as `position` / as its string - read off the semantic summary of the wrappers."""
+    from . import wrapsem, semspec
+    from .. import sem
+    P1 = mir.mk("param", 1)
+    views = wrapsem.rule_views(cx)
     n_range = n_slice = 0
     positioned = 0
     for inst in cx.instances():
-        # types that carry a position
         pos_types = set()
         for p, adt in inst.crate.adts.items():
             if p.startswith(inst.outer + "::") and "::" not in p[len(inst.outer) + 2:]:
-                for v in adt["variants"]:
-                    if any(f["name"] == "position" and "Range<usize>" in f["ty"] for f in v["fields"]):
+                for v_ in adt["variants"]:
+                    if any(f["name"] == "position" and "Range<usize>" in f["ty"] for f in v_["fields"]):
                         pos_types.add(last(p))
         seen_for = set()
+        rule_paths = set(inst.rule_fns.values())
+        # measurements outside rule wrappers
         for p, f in sorted(inst.fns.items()):
-            if "mir" not in f:
+            if "mir" not in f or any(p == rp or p.startswith(rp + "::") for rp in rule_paths):
                 continue
             b = cx.body(inst.crate, p)
             for i, t in b.calls():
                 fn = t["func"]
-                if fn.get("indirect"):
-                    continue
-                nm = last(fn["path"])
-                if nm not in ("range_until", "slice_until") or "ParseState" not in fn["path"]:
-                    continue
-                rest = p[len(inst.prefix) + 2:]
-                rule = rest.split("::")[0]
-                tag = "%s/%s %s" % (inst.name, rule, nm)
-                if nm == "range_until":
-                    n_range += 1
-                else:
-                    n_slice += 1
-                A = norm(b.expr_op(t["args"][0]))
-                B = norm(b.expr_op(t["args"][1]))
-                problems = []
-                # B: the callback's state parameter
-                if not (b.is_closure and B == ("param", 3)):
-                    problems.append("end state %s is not the state handed to the map_with_state callback" % mir.show(B))
-                # the callback is arg1 of map_with_state whose arg0 is Ok(body(clone(entry)))
-                uses = common.closure_uses(cx, inst.crate, b) if b.is_closure else []
-                mws = [(pb, bi, tt) for (pb, bi, tt, ai) in uses if last(tt["func"]["path"]) == "map_with_state" and ai == 1]
-                if len(mws) != 1:
-                    problems.append("the enclosing closure is not (only) the callback of map_with_state")
-                    entry_in_parent = None
-                else:
-                    pb, bi, tt = mws[0]
-                    okv = norm(pb.expr_op(tt["args"][0]))
-                    # okv = (Try::branch(BODY(clone(E), global)) as Continue).0
-                    body_call = None
-                    for s in walk(okv):
-                        if s[0] == "call" and s[1].startswith(inst.prefix) and last(s[1]) == "parse":
-                            body_call = s
-                    if body_call is None:
-                        problems.append("map_with_state is not applied to the rule body's result: %s" % mir.show(okv))
-                        entry_in_parent = None
-                    else:
-                        st0 = body_call[2][0]
-                        rb, root = common.resolve_state(cx, inst.crate, pb, st0)
-                        entry_in_parent = (rb.path, root)
-                        if not (root == ("param", 1) and not rb.is_closure and rb.path == inst.rule_fns.get(rule[len("parse_"):] if rule.startswith("parse_") else rule)):
-                            problems.append("the body is not evaluated from the rule's entry state: %s in %s" % (mir.show(root), short(rb.path)))
-                # A: the entry state
-                ra, roota = common.resolve_state(cx, inst.crate, b, A)
-                if not (roota == ("param", 1) and not ra.is_closure):
-                    problems.append("start state %s is not the rule's entry state" % mir.show(roota))
-                elif entry_in_parent is not None and entry_in_parent[0] != ra.path:
-                    problems.append("start state belongs to another function than the state handed to the body")
-                # where does the value go?
-                dest = t["dest"]["l"]
-                goes = None
-                for bj in sorted(b.reach):
-                    for st in b.blocks[bj]["stmts"]:
-                        if st["k"] == "assign" and st["rv"]["k"] == "agg" and st["rv"].get("agg") == "adt":
-                            e = norm(b.expr_rv(st["rv"]))
-                            for (fname, v) in e[3]:
-                                if any(s[0] == "call" and last(s[1]) == nm and s[2] == (A, B) for s in walk(v)):
-                                    goes = (last(e[1]), fname, v)
-                if nm == "range_until":
-                    if goes is None or goes[1] != "position" or not is_call(goes[2], "range_until"):
-                        problems.append("the range is not stored (unchanged) in the `position` field: %s" % (goes,))
-                    else:
-                        seen_for.add(goes[0])
-                else:
-                    # slice -> to_string -> returned string / `string` field
-                    pass
-                if problems:
-                    for pr in problems:
-                        chk.violation("C09.pair", "%s %s" % (tag, pr.split(":")[0][:80]), pr, cx.site(b, i))
-                else:
-                    chk.ok("C09.pair", tag, {"rule": "%s/%s" % (inst.name, rule), "call": "%s(entry, body_ok_state)" % nm})
-            # two measurements in one callback must use the same pair
-            pairs = set()
-            for i, t in b.calls():
-                fn = t["func"]
                 if not fn.get("indirect") and last(fn["path"]) in ("range_until", "slice_until") and "ParseState" in fn["path"]:
-                    pairs.add((norm(b.expr_op(t["args"][0])), norm(b.expr_op(t["args"][1]))))
-            if len(pairs) > 1:
-                chk.violation("C09.pair", "%s/%s mixed-pairs" % (inst.name, short(p)), "string slice and range of one rule are measured between different states", cx.site(b))
+                    chk.violation("C09.pair", "%s %s outside a rule wrapper" % (inst.name, short(p)), "a position / slice is measured outside a rule wrapper", cx.site(b, i))
+        for rule in sorted(inst.rule_fns):
+            v = views.get((inst.name, rule))
+            if v is None or v.sm is None:
+                if v is not None and v.path is not None and any(last(t["func"]["path"]) in ("range_until", "slice_until") for q in inst.fns if q.startswith(v.path) and "mir" in inst.fns[q]
+                                                              for _, t in cx.body(inst.crate, q).calls() if not t["func"].get("indirect")):
+                    chk.violation("C09.pair", "%s/%s unsummarised" % (inst.name, rule), "a wrapper that measures positions could not be summarised: %s" % v.problem)
+                continue
+            all_pairs = [pr for leaf in v.leaves for pr in v.mapped(leaf)]
+            for leaf in v.leaves:
+                ms = [ev for ev in leaf.trace if ev[0][0] == "call" and last(ev[0][1]) in ("range_until", "slice_until") and "ParseState" in ev[0][1]]
+                if not ms:
+                    continue
+                oks = [bev[0] for (_, bev) in v.body_events(leaf) if semspec.discr_case(leaf, bev[0]) == 0]
+                pairs = all_pairs
+                for ev in ms:
+                    t = ev[0]
+                    nm = last(t[1])
+                    tag = "%s/parse_%s %s" % (inst.name, rule, nm)
+                    if nm == "range_until":
+                        n_range += 1
+                    else:
+                        n_slice += 1
+                    problems = []
+                    A, B = t[2]
+                    if A != P1:
+                        problems.append("start state %s is not the rule's entry state" % mir.show(A)[:80])
+                    ends = {mir.mk("field", mir.mk("field", mir.mk("downcast", R, "Ok"), "0"), "state") for R in oks}
+                    if not ends:
+                        problems.append("the body is not evaluated from the rule's entry state on a path that measures a position")
+                    elif B not in ends:
+                        problems.append("end state %s is not the state the rule body ended in" % mir.show(B)[:80])
+                    # where does the value go?
+                    stored = False
+                    for (R, X) in pairs:
+                        val = sem.get_field(X, "result")
+                        if nm == "range_until":
+                            if val[0] == "agg" and dict(val[3]).get("position") == t:
+                                stored = True
+                                seen_for.add(last(val[1]))
+                        else:
+                            if any(s_ == t for s_ in walk(val)):
+                                stored = True
+                    if pairs and not stored:
+                        problems.append("the %s is not stored (unchanged) in the value the rule returns" % ("range" if nm == "range_until" else "slice"))
+                    if problems:
+                        for pr in sorted(set(problems)):
+                            chk.violation("C09.pair", "%s %s" % (tag, pr.split(":")[0][:80]), pr, cx.site(v.body))
+                    else:
+                        chk.ok("C09.pair", tag, {"rule": "%s/%s" % (inst.name, rule), "call": "%s(entry, body_ok_state)" % nm})
         for tname in sorted(pos_types):
             positioned += 1
             if tname not in seen_for:
-                # enum overrides of positioned rules have no own field; structs must be filled by range_until
                 chk.violation("C09.pair", "%s/%s position-not-measured" % (inst.name, tname),
                               "type %s has a `position` field but no range_until(entry, end) feeds it" % tname)
     chk.floor("C09.pair", "range_until sites", n_range, 3)
